@@ -441,6 +441,21 @@ def check_extras(case):
             out.call()
         except Exception as e:
             out.viol('find-wrong-exception', "find_data(key='absent') raised %s: %s (expected ValueError)" % (type(e).__name__, e), col='key-column')
+    # ---- columns that are called like the constructor's own parameters ('data', 'columns'): columns like any other, also when no row survives
+    if n:
+        out.sub()
+        for cname in ('data', 'columns'):
+            d = dictable({cname: ['d%d' % i for i in range(n)], 'b': list(range(n))})
+            for cond, want in (({'b': -1}, []), ({'b': 0}, [0]), ({'b': list(range(n))}, list(range(n)))):
+                try:
+                    ri, re_ = d.inc(dict(cond)), d.exc(dict(cond))
+                    out.call(2)
+                    okc = set(ri.keys()) == {cname, 'b'} and set(re_.keys()) == {cname, 'b'}
+                    if not okc or list(ri['b']) != want or list(re_['b']) != [i for i in range(n) if i not in want] or list(ri[cname]) != ['d%d' % i for i in want]:
+                        out.viol('columns-lost' if not okc else 'wrong-rows', 'table with columns %r, b: inc(%r) has columns %s rows b=%s, exc has columns %s' % (
+                            cname, cond, list(ri.keys()), list(ri.get('b', [])), list(re_.keys())), op='inc/exc', empty=not want, constructor_named_column=True)
+                except Exception as e:
+                    out.viol('inc-raised', 'table with columns %r, b: inc / exc(%r) raised %s: %s' % (cname, cond, type(e).__name__, e), cond='constructor-named-column', suite='extras')
     # ---- underscored column names
     if n:
         out.sub()
